@@ -2,8 +2,9 @@
 """print the sub-agent prompt for one property id (text of the property only, nothing from /verif's machinery)"""
 import json, sys
 pid = sys.argv[1]
-wt = "/tmp/seedwork/wt-%s" % pid
-out = "/tmp/seedwork/out-%s" % pid
+rnd = sys.argv[2] if len(sys.argv) > 2 else ""
+wt = "/tmp/seedwork/wt-%s%s" % (pid, rnd)
+out = "/tmp/seedwork/out-%s%s" % (pid, rnd)
 p = next(json.loads(l) for l in open("/verif/properties.jsonl") if json.loads(l)["id"] == pid)
 txt = json.dumps({k: p[k] for k in ("id", "title", "statement", "quantifier", "why_tests_cant", "anchors")}, indent=1)
 print(f"""You are helping to evaluate a verification setup for the Python library junzis/pyModeS (a Mode-S / ADS-B decoder).
@@ -24,7 +25,8 @@ Requirements for each of the two changes:
 - It must need something specific to manifest: an unusual input, a particular band/range/bit pattern/boundary value, a particular sequence or interleaving of operations - NOT something ordinary use or the existing tests expose at once. The full existing test suite must still pass with the change applied (36 tests).
 - It must genuinely violate the property as stated (be careful to read the statement; if the statement tolerates something, that is not a violation).
 - The two changes should be in different mechanisms/locations if possible.
-
+""" + ("""- This is a SECOND round: avoid the most obvious single-line slips in the first function the property names; prefer less central mechanisms listed under "anchors" (secondary entry points, dispatchers, rarely taken branches, state carried between calls, boundary values of ranges, interactions between two functions) and subtler triggers.
+""" if rnd else "") + f"""
 Deliverables, written under {out}/a/ and {out}/b/ (create the directories):
 - patch.diff : `git diff` of the change relative to the worktree's HEAD (apply-able with `git apply` from the repository root).
 - demo.py : a small standalone program, run as `PYTHONPATH=<root>/src /venv/bin/python demo.py`, that exits 0 and prints OK on the UNCHANGED code and exits 1 (printing what went wrong) with the change applied. It should check the property on the specific input(s)/sequence that expose the change, against an expectation you derive independently of the library (e.g. from the standard's definition), not against the library's own previous output where avoidable.
